@@ -27,7 +27,7 @@ func (c *Clock) After(d time.Duration) <-chan time.Time {
 	if s == nil {
 		return time.After(d)
 	}
-	t := &vtimer{at: s.now.Add(d), ch: make(chan time.Time, 1)}
+	t := &vtimer{off: c.Offset, at: s.now.Add(d), ch: make(chan time.Time, 1)}
 	s.addTimer(t)
 	return t.ch
 }
@@ -62,7 +62,7 @@ func (c *Clock) NewTicker(d time.Duration) clockwork.Ticker {
 	if s == nil {
 		return clockwork.NewRealClock().NewTicker(d)
 	}
-	t := &vtimer{at: s.now.Add(d), ch: make(chan time.Time, 1), period: d}
+	t := &vtimer{off: c.Offset, at: s.now.Add(d), ch: make(chan time.Time, 1), period: d}
 	s.addTimer(t)
 	return &vTicker{s, t}
 }
@@ -89,7 +89,7 @@ func (c *Clock) NewTimer(d time.Duration) clockwork.Timer {
 	if s == nil {
 		return clockwork.NewRealClock().NewTimer(d)
 	}
-	t := &vtimer{at: s.now.Add(d), ch: make(chan time.Time, 1)}
+	t := &vtimer{off: c.Offset, at: s.now.Add(d), ch: make(chan time.Time, 1)}
 	s.addTimer(t)
 	return &vTimer{s, t}
 }
